@@ -9,6 +9,7 @@ CONSTANTS
   TypeOf <- MCTypeOf
   Classes = {"08", "11"}
   Eavesdrop = TRUE
+  FakeDevs <- MCFake1
   MaxClaims = 40
 SPECIFICATION Spec
 VIEW GraphView
